@@ -427,6 +427,14 @@ def oracle_case(case, obs, small=True):
         if st.startswith("srch"):
             if g is None:
                 g = graph_of_case(case)
+            if " REUSED-OBJECT-ANSWERS " in text:
+                # the same configured search object, run a second time, answered differently: decide both answers
+                first, second = text.split(" REUSED-OBJECT-ANSWERS ", 1)
+                for which, t2 in (("first", first), ("second", second)):
+                    msg = check_srch(g, st, t2, small)
+                    if msg:
+                        return "step %d `%s`: %s run of the same search object -> `%s`: %s" % (si, st, which, t2[:120], msg)
+                return "step %d `%s`: the same search object answered `%s` and then `%s` on an unchanged graph" % (si, st, first[:80], second[:80])
             msg = check_srch(g, st, text, small)
             if msg:
                 return "step %d `%s` -> `%s`: %s" % (si, st, text[:120], msg)
@@ -521,7 +529,7 @@ def gen_cases(cls, rng, tier, algos, whats, level=1, n_small=3, m_small=3, nrand
         cases.append(Case("%sR%s%d" % (prefix, cls, i), cls, st, dict(kind="random-graph", nodes=g.n, edges=len(g.edges))))
     # large structured graphs: long chains, deep trees, wide fans, grids, rings with chords, dense random graphs
     if nrandom:
-        for i in range(max(6, nrandom // 5)):
+        for i in range(max(8, nrandom // 5)):
             g = large_graph(cls, rng, i)
             st = g.steps()
             far = [g.n - 1, g.n // 2, 0, rng.randrange(g.n)]
@@ -538,14 +546,24 @@ def gen_cases(cls, rng, tier, algos, whats, level=1, n_small=3, m_small=3, nrand
                 r = rng.random()
                 m = None if r < 0.4 else ("each",) if r < 0.7 else ("filt", rng.randint(0, 5), rng.randint(3, 6))
                 st.append(srch(algo, what, root, tr, tg, m))
-            cases.append(Case("%sL%s%d" % (prefix, cls, i), cls, st, dict(kind="large-graph", nodes=g.n, edges=len(g.edges))))
+            deep = g.n > 1000
+            cases.append(Case(("deep%s%s%d" if deep else "%sL%s%d") % (prefix, cls, i), cls, st,
+                              dict(kind="deep-graph-oracle-only" if deep else "large-graph", nodes=g.n, edges=len(g.edges), oracle_only=deep)))
     return cases
 
 
 def large_graph(cls, rng, i):
-    shape = ["chain", "tree", "fan", "grid", "ring", "dense"][i % 6]
+    shape = ["chain", "tree", "fan", "grid", "ring", "dense", "deepring", "deepchain"][i % 8]
     edges = []
-    if shape == "chain":
+    if shape == "deepring":
+        # recursion / queue depth in the thousands
+        n = rng.randint(2200, 3200)
+        edges = [(u, (u + 1) % n) for u in range(n)]
+    elif shape == "deepchain":
+        # a long branch explored first, then a short cut to its end and an edge back to the start
+        n = rng.randint(2200, 3200)
+        edges = [(u, u + 1) for u in range(n - 1)] + [(0, n - 1), (n - 1, 0)]
+    elif shape == "chain":
         n = rng.randint(80, 160)
         edges = [(u, u + 1) for u in range(n - 1)] + [(rng.randrange(n), rng.randrange(n)) for _ in range(5)]
     elif shape == "tree":
